@@ -590,14 +590,14 @@ func (g *vGen) next() M {
 			}
 		}
 		return M{"c": "BatchResolveLock", "lo": lo, "hi": hi, "infos": infos}
-	case r < 98:
+	case r < 97:
 		lo, hi := g.rangeLoHi()
 		return M{"c": "ScanLock", "lo": lo, "hi": hi, "maxts": g.someTs()}
 	default:
 		lo, hi := g.rangeLoHi()
 		sp := g.someTs()
-		if sp == vMaxTs {
-			sp = g.alloc()
+		if sp == vMaxTs || g.rng.Intn(3) != 0 {
+			sp = g.alloc() // a safe point above everything that happened so far
 		}
 		return M{"c": "GC", "lo": lo, "hi": hi, "sp": sp}
 	}
@@ -632,15 +632,55 @@ func TestVerifMVCC(t *testing.T) {
 		w.Write(b)
 		w.WriteByte('\n')
 	}
+	rng := rand.New(rand.NewSource(seed))
+	// audit: the read paths against whatever state has been reached
+	audit := func(st *MVCCLevelDB, maxAlloc int) {
+		for _, ts := range []int{maxAlloc + 1, vMaxTs} {
+			for _, c := range []M{{"c": "Scan", "lo": 0, "hi": 0, "limit": 10, "ts": ts, "resolved": []int{}},
+				{"c": "ReverseScan", "lo": 0, "hi": 0, "limit": 10, "ts": ts, "resolved": []int{}},
+				{"c": "BatchGet", "ks": []int{1, 2, 3, 4}, "ts": ts, "resolved": []int{}}} {
+				emit(M{"ev": "cmd", "cmd": c, "resp": vExec(st, c), "proj": vProj(st)})
+			}
+		}
+	}
+	maxTsIn := func(cmds []M) int {
+		mx := 0
+		for _, c := range cmds {
+			for _, f := range []string{"start", "commit", "fts", "lts", "sp"} {
+				if v, ok := c[f]; ok {
+					if x, ok := v.(float64); ok && int(x) > mx && int(x) != vMaxTs {
+						mx = int(x)
+					}
+				}
+			}
+		}
+		return mx
+	}
+	// model scenarios are edge-cover paths: the prefix is validated as the last step of its own scenario, so only the
+	// state before the last command (sync) and the last command are logged - unless an earlier pessimistic lock request
+	// may have fed the deadlock detector, whose wait-for graph is not part of the projection
 	run := func(cmds []M, id string) {
 		st, err := NewMVCCLevelDB("")
 		if err != nil {
 			t.Fatal(err)
 		}
+		full := false
+		for _, c := range cmds[:len(cmds)-1] {
+			if c["c"] == "PessimisticLock" {
+				full = true
+			}
+		}
 		emit(M{"ev": "reset", "scenario": id})
-		for _, c := range cmds {
+		for i, c := range cmds {
 			resp := vExec(st, c)
-			emit(M{"ev": "cmd", "cmd": c, "resp": resp, "proj": vProj(st)})
+			if full || i == len(cmds)-1 {
+				emit(M{"ev": "cmd", "cmd": c, "resp": resp, "proj": vProj(st)})
+			} else if i == len(cmds)-2 {
+				emit(M{"ev": "sync", "proj": vProj(st)})
+			}
+		}
+		if rng.Intn(4) == 0 {
+			audit(st, maxTsIn(cmds))
 		}
 		st.Close()
 	}
@@ -667,7 +707,6 @@ func TestVerifMVCC(t *testing.T) {
 		}
 		sf.Close()
 	}
-	rng := rand.New(rand.NewSource(seed))
 	for sc := 0; sc < nscen; sc++ {
 		g := &vGen{rng: rng, phys: 1 + rng.Intn(5)}
 		n := 5 + rng.Intn(maxLen)
@@ -682,6 +721,15 @@ func TestVerifMVCC(t *testing.T) {
 			cmds = append(cmds, c)
 			resp := vExec(st, c)
 			emit(M{"ev": "cmd", "cmd": c, "resp": resp, "proj": vProj(st)})
+			if rng.Intn(7) == 0 || i == n-1 {
+				mx := 0
+				for _, x := range g.allTs {
+					if x > mx {
+						mx = x
+					}
+				}
+				audit(st, mx)
+			}
 		}
 		st.Close()
 	}
